@@ -11,6 +11,7 @@ import (
 	"go/types"
 	"math/big"
 	"os"
+	"regexp"
 	"sort"
 	"strings"
 
@@ -91,7 +92,7 @@ func instrKind(in ssa.Instruction) string {
 		return "index"
 	case *ssa.Slice:
 		return "slice"
-	case *ssa.MakeSlice:
+	case *ssa.MakeSlice, *ssa.MakeMap:
 		return "make"
 	case *ssa.TypeAssert:
 		return "assert"
@@ -178,7 +179,15 @@ func (ex *Exec) goal(st *State, kind, name string, g Term, props []string, pos, 
 	env := ex.curEnv
 	// known findings: prove the obligation outside the recorded failing region
 	// and re-confirm that the region still fails.
-	if fs, ok := ex.findings[name]; ok && env != nil {
+	fs := ex.findings[name]
+	for pat, pf := range ex.findings {
+		if strings.Contains(pat, "*") {
+			if globMatch(pat, name) {
+				fs = append(fs, pf...)
+			}
+		}
+	}
+	if len(fs) > 0 && env != nil {
 		for _, f := range fs {
 			r, err := env.evalBool(f.Region)
 			if err != nil {
@@ -1107,4 +1116,14 @@ func (ex *Exec) tryDiamond(st *State, fc *FnCtx, b *ssa.BasicBlock, c Term) bool
 	ex.merged++
 	ex.runBlock(m, fc, J, b)
 	return true
+}
+
+// globMatch: '*' matches any run of characters (including '/').
+func globMatch(pat, s string) bool {
+	parts := strings.Split(pat, "*")
+	for i := range parts {
+		parts[i] = regexp.QuoteMeta(parts[i])
+	}
+	re, err := regexp.Compile("^" + strings.Join(parts, ".*") + "$")
+	return err == nil && re.MatchString(s)
 }
